@@ -105,7 +105,11 @@ CheckReq(v) ==
           \* (active by the type served, or by what the content was positively detected to be)
           \cup If(ServedFile(v) /\ (\/ ActiveType(v.resp.ctypech)
                                     \/ \E u \in named : u.sniff \notin {"", "application/octet-stream"} /\ MimeActive(u.sniff))
-                  => v.resp.disp = "attachment", "ActiveContentSaved"))
+                  => v.resp.disp = "attachment", "ActiveContentSaved")
+          \* ... and content that is not active is saved exactly when the request asks for it (asatt parses as true)
+          \cup If(ServedFile(v) /\ ~ActiveType(v.resp.ctypech)
+                                /\ ~(\E u \in named : u.sniff \notin {"", "application/octet-stream"} /\ MimeActive(u.sniff))
+                  => (v.resp.disp = "attachment") = AsattTrue(a.asatt) /\ v.resp.disp \in {"", "attachment"}, "InertSavedIffAsked"))
 
 Collectible(v) == {u \in Rg(v.pre.up) : ~IsLinked(v.pre, u.id) /\ u.upd < v.older}
 
